@@ -231,8 +231,65 @@ def r4(ctx):
     ctx.ob('C18.R4', fn, fn.body, ok, 'delimiter schedule', 'delimiters %s' % sorted(vals, key=str), nontrivial=False)
 
 
+def r5(ctx):
+    ctx.rule('C18.R5', 'StringReplacer::match (MQTT topic -> circuit/name/field) walks the topic with one cursor: the end of a '
+             'field value is found by searching the whole next constant of the template from the cursor (string::find, not a '
+             'character-set search), the value and a compared constant are taken at the cursor, and the cursor advances only '
+             'by the length of the text just consumed there', minimum=4)
+    fb = ctx.fb
+    fn = fb.fn('ebusd::StringReplacer::match')
+    ctx.touch(fn)
+    import re
+    nxt = fn.local_where(lambda k, r: re.search(r'this\.m_parts\[\(\w+ \+ #1\)\]\.first', k) is not None)
+    searches = []
+    for c in fn.all('CXXMemberCallExpr'):
+        v = fn.nodes[c]
+        base = (v.get('callee') or '').split('::')[-1]
+        if (v.get('callee') or '').startswith('std::basic_string') and base.startswith(('find', 'rfind')) and len(v.get('args', [])) >= 2 and \
+                fn.key(v['args'][0]) in nxt:
+            searches.append((c, base))
+    if not nxt or not searches:
+        raise AnalysisBroken('C18.R5: search for the next constant part not recognised in StringReplacer::match')
+    cursor = fn.key(fn.nodes[searches[0][0]]['args'][1])
+    subject = fn.key(fn.nodes[searches[0][0]]['obj'])
+    for c, base in searches:
+        ok = base == 'find' and fn.key(fn.nodes[c]['args'][1]) == cursor
+        ctx.ob('C18.R5', fn, c, ok, 'search for the next constant', '%s.%s(%s)' % (subject, base, ', '.join(fn.key(a) for a in fn.nodes[c]['args'])))
+    # texts taken at the cursor
+    taken = set()
+    for nid, d, rhs, op, lhs in fn.assignments():
+        if d and rhs is not None and op in ('=', 'init') and fn.key(rhs).startswith('%s.substr(%s,' % (subject, cursor)):
+            taken.add(d.split(':')[-1])
+    parts = fn.local_where(lambda k, r: re.search(r'this\.m_parts\[\w+\]', k) is not None and '+ #1' not in k)
+    # constant parts compared at the cursor: subject.substr(cursor, P.first.length()) != P.first
+    compared = set()
+    for x in fn.all('CXXOperatorCallExpr'):
+        k = fn.key(x)
+        for pn in parts:
+            if '%s.substr(%s,%s.first.length())' % (subject, cursor, pn) in k and '%s.first' % pn in k.replace('%s.first.length()' % pn, ''):
+                compared.add(pn)
+    n = 0
+    for nid, d, rhs, op, lhs in fn.assignments():
+        if not d or d.split(':')[-1] != cursor or op == 'init':
+            continue
+        n += 1
+        rk = fn.key(rhs) if rhs is not None else ''
+        ok = op == '+=' and (any(rk == '%s.length()' % t or rk == '%s.size()' % t for t in taken) or
+                             any(rk in ('%s.first.length()' % pn, '%s.first.size()' % pn) for pn in compared))
+        ctx.ob('C18.R5', fn, nid, ok, 'cursor advance', '%s %s %s (texts taken at the cursor: %s, constants compared at the cursor: %s)' % (
+            cursor, op, rk, sorted(taken), sorted(compared)))
+    if n < 2:
+        raise AnalysisBroken('C18.R5: only %d cursor updates found' % n)
+    # every value handed out is one of the texts taken at the cursor
+    outs = [(nid, rhs) for nid, d, rhs, op, lhs in fn.assignments() if lhs is not None and fn.key(lhs).startswith('*') and rhs is not None]
+    for nid, rhs in outs:
+        ctx.ob('C18.R5', fn, nid, fn.key(rhs) in taken, 'value handed out', '%s = %s' % (fn.key(fn.nodes[nid]['lhs']) if 'lhs' in fn.nodes[nid] else '*out', fn.key(rhs)),
+               nontrivial=False)
+
+
 def run(ctx):
     r1(ctx)
     r2(ctx)
     r3(ctx)
     r4(ctx)
+    r5(ctx)
